@@ -106,6 +106,10 @@ class Scenario:
             self.model_tps.append(m)
             real.append({'id': str(tp['id']), 'path': m['file'], 'line': line if tp['kind'] == 'line' else 0,
                          'args': tp_args(m)})
+        self.all_model_tps = list(self.model_tps)
+        self.all_real = list(real)
+        for m_ in self.host.mods.values():
+            m_.HOOK = self.reconfigure
         self.spanproc = _SpanProc(self)
         self.push = _Push(self)
         self.snap_open = {}
@@ -124,6 +128,22 @@ class Scenario:
     def close(self):
         self.rig.close()
         self.host.close()
+
+    def reconfigure(self, mask):
+        """Called by the host program in the middle of its run: the service's configuration now holds only the
+        tracepoints whose index bit is set in mask (a fresh poll response: the agent builds new triggers)."""
+        if getattr(self, 'no_agent', False) or getattr(self, 'stage_width', 1) > 1:
+            return      # (with several threads running, "between two events" is not well defined: not exercised)
+        keep = [i for i in range(len(self.all_model_tps)) if mask & (1 << i)]
+        with self.lock:
+            self.model_tps = [self.all_model_tps[i] for i in keep]
+            self.rig.install([self.all_real[i] for i in keep])
+            self.records.append({'ev': 'config', 'tps': [self._hdr_tp(t) for t in self.model_tps]})
+
+    @staticmethod
+    def _hdr_tp(t):
+        return dict(id=t['id'], kind=t['kind'], file=t['file'], name=t['name'], line=t['line'], span=t['span'],
+                    faulty=bool(t.get('faulty', False)))
 
     def current_seq(self):
         return getattr(self.tl, 'seq', 0)
@@ -213,6 +233,7 @@ class Scenario:
         k = 0
         for stage in plan:
             ths = []
+            self.stage_width = len(stage)
             for entry, script in stage:
                 k += 1
                 th = threading.Thread(target=self.run_thread_body, args=(entry, script, k))
@@ -230,13 +251,17 @@ class Scenario:
         """The same plan without the agent: the host's own results."""
         out = {}
         k = 0
-        for stage in plan:
-            for entry, script in stage:
-                k += 1
-                try:
-                    out[k] = ('ok', self.host.entry(entry)(script))
-                except BaseException as ex:
-                    out[k] = ('exc', type(ex).__name__)
+        self.no_agent = True
+        try:
+            for stage in plan:
+                for entry, script in stage:
+                    k += 1
+                    try:
+                        out[k] = ('ok', self.host.entry(entry)(script))
+                    except BaseException as ex:
+                        out[k] = ('exc', type(ex).__name__)
+        finally:
+            self.no_agent = False
         return out
 
     def capture_problems(self):
@@ -281,6 +306,8 @@ class Scenario:
         for r in self.records:
             if r['ev'] in ('tstart', 'tend'):
                 evs.append({'ev': r['ev'], 'thr': r['thr']})
+            elif r['ev'] == 'config':
+                evs.append(r)
             elif r['ev'] == 'stray':
                 evs.append({'ev': 'stray', 'thr': 0})
             else:
@@ -289,13 +316,11 @@ class Scenario:
                 evs.append(r)
         out = []
         for r in evs:
-            if r['ev'] in ('tstart', 'tend', 'stray'):
+            if r['ev'] in ('tstart', 'tend', 'stray', 'config'):
                 out.append(r)
             else:
                 out.append({'ev': r['ev'], 'thr': r['thr'], 'file': r['file'], 'fn': r['fn'], 'line': r['line'],
                             'fired': sorted(r['fired']),
                             'closed': sorted([c[0], renum.get(c[1], 0)] for c in r['closed'])})
-        hdr = {'tps': [dict(id=t['id'], kind=t['kind'], file=t['file'], name=t['name'], line=t['line'], span=t['span'],
-                            faulty=bool(t.get('faulty', False)))
-                       for t in self.model_tps]}
+        hdr = {'tps': [self._hdr_tp(t) for t in self.all_model_tps]}
         return [hdr] + out
